@@ -1,6 +1,6 @@
 (* C06 — degeneracy reduction (unique=True) never changes results. *)
 From Coq Require Import ZArith List Bool Arith.
-From OQ Require Import Lib.RingSum Model.Degeneracy Model.Shapes Proofs.DegeneracySpec Proofs.ShapesSpec.
+From OQ Require Import Lib.RingSum Lib.Mat Model.Degeneracy Model.Shapes Model.PathSum Proofs.DegeneracySpec Proofs.ShapesSpec Proofs.PathSumExt.
 Import ListNotations.
 
 (* (1) class maps: for any key function with a sound equality test, the representative of an index
@@ -42,6 +42,40 @@ Theorem influence_reduced :
     exponent iu er ei m p i j = exponent iu er ei m p i' j'.
 Proof. intros. apply exponent_classes; assumption. Qed.
 Print Assumptions influence_reduced.
+
+(* (3) composition: the whole path sum computed from influence functions evaluated at class
+   representatives only (what unique=True stores and the back-end expands through the class maps)
+   equals the path sum with the full influence functions — any number of time points, memory schedule,
+   propagators and basis change, any key types and any pattern of degeneracy — provided the full
+   influence functions see the earlier index through its north key and the later index through its
+   west key (which (2) proves for the exponent the code builds) *)
+Theorem unique_eq_full :
+  forall (K : Ring) (KeyN KeyW : Type) (keqN : KeyN -> KeyN -> bool) (keqW : KeyW -> KeyW -> bool),
+    (forall x, keqN x x = true) -> (forall x y, keqN x y = true -> x = y) ->
+    (forall x, keqW x x = true) -> (forall x y, keqW x y = true -> x = y) ->
+    forall (d2 : nat) (keysN : list KeyN) (keysW : list KeyW) (dN : KeyN) (dW : KeyW),
+      length keysN = d2 -> length keysW = d2 ->
+    forall (uin uout : list (list K)) (props : nat -> list (list K) * list (list K)) (rho0 : list K)
+           (diag0 : nat -> K) (full red : nat -> nat -> option (list (list K))),
+      (forall kp k m, full kp k = Some m ->
+         forall jp jp' j j', jp < d2 -> jp' < d2 -> j < d2 -> j' < d2 ->
+           nth jp keysN dN = nth jp' keysN dN -> nth j keysW dW = nth j' keysW dW -> entry K m jp j = entry K m jp' j') ->
+      (forall j j', j < d2 -> j' < d2 -> nth j keysN dN = nth j' keysN dN -> diag0 j = diag0 j') ->
+      (forall kp k,
+         match full kp k, red kp k with
+         | Some m, Some r => forall jp j, jp < d2 -> j < d2 ->
+               entry K r jp j = entry K m (rep_of KeyN keqN keysN jp dN) (rep_of KeyW keqW keysW j dW)
+         | None, None => True
+         | _, _ => False
+         end) ->
+      forall n,
+        state d2 (fun j => diag0 (rep_of KeyN keqN keysN j dN)) red uin uout props rho0 n =
+        state d2 diag0 full uin uout props rho0 n.
+Proof.
+  intros K KeyN KeyW keqN keqW H1 H2 H3 H4 d2 keysN keysW dN dW H5 H6 uin uout props rho0 diag0 full red H7 H8 H9.
+  exact (PathSumExt.unique_eq_full K KeyN KeyW keqN keqW H1 H2 H3 H4 d2 keysN keysW dN dW H5 H6 uin uout props rho0 diag0 full H7 H8 red H9).
+Qed.
+Print Assumptions unique_eq_full.
 
 Example class_premises_met :
   (forall x : Z * Z, (Z.eqb (fst x) (fst x) && Z.eqb (snd x) (snd x))%bool = true).
